@@ -155,7 +155,7 @@ func (c *Ctx) altCond(f *FA, x *bvCtx, a valAlt) string {
 func mergeByteRows(rows []encRow) []encRow {
 	// whole-octet slice of one leaf: returns leaf and the index of the slice's lowest bit
 	octetOf := func(r encRow) (int, int, bool) {
-		if r.Octets != 1 || !r.Off.isConst() || len(r.Val) < 8 {
+		if r.Octets != 1 || len(r.Val) < 8 {
 			return 0, 0, false
 		}
 		first := r.Val[0]
@@ -183,7 +183,7 @@ func mergeByteRows(rows []encRow) []encRow {
 		// r is a higher octet: collect the lower octets at the following offsets
 		group := []int{i}
 		want := idx - 8
-		off := r.Off.C + 1
+		off := int64(1) // distance from r's offset (offsets may be symbolic: len(nonce)+k)
 		for want >= 0 {
 			found := -1
 			for j, q := range rows {
@@ -191,7 +191,7 @@ func mergeByteRows(rows []encRow) []encRow {
 					continue
 				}
 				l2, i2, ok2 := octetOf(q)
-				if ok2 && l2 == leaf && i2 == want && q.Off.C == off {
+				if d := q.Off.add(r.Off, -1); ok2 && l2 == leaf && i2 == want && d.isConst() && d.C == off {
 					found = j
 					break
 				}
